@@ -951,3 +951,98 @@ Proof.
   rewrite (thermal_steps_compose_gen K V mscale (E tau) N pos HA HN1 HN2 f fs psi0 Hp).
   f_equal. apply iter_semigroup; assumption.
 Qed.
+
+(* ================================================================== C10: purified density operators ======== *)
+From RV Require Import Model.Env Proofs.EnvProofs.
+
+Section PurifiedProofs.
+Variable K : CRing.
+Add Ring KR3 : (rth K).
+Notation "0" := (r0 K).
+Notation "1" := (r1 K).
+Infix "+" := (radd K).
+Infix "*" := (rmul K).
+
+Lemma sumn_if_zero n (f : nat -> K) : sumn n (fun m => 0 * f m) = 0.
+Proof. apply sumn_0. intros. ring. Qed.
+
+(* dense(MpDm.from_mps(psi))[s, s'] = [s = s'] psi(s), any bond dimensions *)
+Lemma from_mps_chain : forall (ts : list (nat * T3 K)) su sd l r,
+  chain4 (from_mps K ts) su sd l r = if cfg_eqb su sd then chain3 ts su l r else 0.
+Proof.
+  induction ts as [|[d t] ts IH]; intros su sd l r.
+  - destruct su, sd; cbn; try reflexivity. match goal with |- _ = if ?c then _ else _ => destruct c end; reflexivity.
+  - destruct su as [|pu su], sd as [|pd sd]; try reflexivity.
+    + cbn [from_mps map chain4 chain3 fst snd cfg_eqb]. fold (from_mps K ts).
+      unfold from_mps_site. destruct (Nat.eqb pu pd); cbn [andb].
+      * destruct (cfg_eqb su sd) eqn:E.
+        -- apply sumn_ext. intros m _. rewrite IH, E. reflexivity.
+        -- apply sumn_0. intros m _. rewrite IH, E. ring.
+      * apply sumn_0. intros m _. ring.
+Qed.
+
+Theorem from_mps_dense (ts : list (nat * T3 K)) su sd :
+  opamp (from_mps K ts) su sd = if cfg_eqb su sd then amp ts su else 0.
+Proof. apply from_mps_chain. Qed.
+
+Lemma me_chain : forall ws s, length s = length ws ->
+  chain3 (max_entangled_gs_mps K ws) s 0%nat 0%nat = me_weight K ws s.
+Proof.
+  induction ws as [|w ws IH]; intros [|p s] Hl; try discriminate; [reflexivity|].
+  cbn [max_entangled_gs_mps map chain3 sumn me_weight]. fold (max_entangled_gs_mps K ws).
+  rewrite IH by (cbn in Hl; lia). unfold me_site. ring.
+Qed.
+
+(* dense(max_entangled_gs) = [s = s'] . (product of the vibrational entries) . [electrons in |0>]: a multiple of the
+   identity on the vibrational sites, for any number of sites and levels *)
+Theorem max_entangled_identity_gen ws su sd : length su = length ws ->
+  opamp (max_entangled_gs K ws) su sd = if cfg_eqb su sd then me_weight K ws su else 0.
+Proof.
+  intros Hl. unfold max_entangled_gs. rewrite from_mps_dense. destruct (cfg_eqb su sd); [|reflexivity].
+  unfold amp. now apply me_chain.
+Qed.
+
+(* on configurations whose electronic indices are 0 the weight does not depend on the vibrational indices *)
+Lemma me_weight_const : forall ws s s', length s = length ws -> length s' = length ws ->
+  (forall k, nth k ws None = None -> nth k s 0%nat = 0%nat /\ nth k s' 0%nat = 0%nat) ->
+  me_weight K ws s = me_weight K ws s'.
+Proof.
+  induction ws as [|w ws IH]; intros [|p s] [|p' s'] H1 H2 He; try discriminate; [reflexivity|].
+  cbn [me_weight]. rewrite (IH s s') by (try (cbn in *; lia); intros k Hk; apply (He (S k)); exact Hk).
+  destruct w as [c|]; [reflexivity|]. destruct (He 0%nat eq_refl) as [E1 E2]. cbn in E1, E2. subst. reflexivity.
+Qed.
+
+(* ---- the expectation path of a purified state: Tr(O rho rho^+) with the auxiliary index traced ---- *)
+Lemma chain4_cj : forall (ts : list (nat * T4 K)) su sd l r,
+  chain4 (map (fun dt => (fst dt, cj4 (snd dt))) ts) su sd l r = rcj K (chain4 ts su sd l r).
+Proof.
+  induction ts as [|[d t] ts IH]; intros su sd l r.
+  - destruct su, sd; cbn; try (now rewrite rcj_0). destruct (Nat.eqb l r); [now rewrite rcj_1|now rewrite rcj_0].
+  - destruct su as [|pu su], sd as [|pd sd]; cbn [map chain4 fst snd]; try (now rewrite rcj_0).
+    rewrite sumn_cj. apply sumn_ext. intros m _. rewrite rcj_mul, IH. reflexivity.
+Qed.
+
+Definition purified (ss : list (site4 K)) : Prop := Forall (fun s => bra4 s = cj4 (ket4 s) /\ a4 s = c4 s) ss.
+
+Lemma purified_bras ss : purified ss -> bras4 ss = map (fun dt => (fst dt, cj4 (snd dt))) (kets4 ss).
+Proof.
+  induction 1 as [|s ss [Hb Ha] _ IH]; [reflexivity|].
+  unfold bras4, kets4 in *. cbn [map fst snd]. rewrite IH, Hb, Ha. reflexivity.
+Qed.
+
+(* MpDm._expectation_path with bra = conj(ket):  <rho|O|rho> = sum_{s',s} O[s',s] R[s,s'],  R[s,s'] = sum_t rho[s,t] conj(rho[s',t])
+   i.e. Tr(O R) with R = rho rho^+ = the physical density operator obtained by tracing the auxiliary index t *)
+Theorem purification_expectation_gen (ss : list (site4 K)) :
+  ss <> [] -> lastA K 1 ss = 1%nat -> lastB K 1 ss = 1%nat -> lastC K 1 ss = 1%nat -> purified ss ->
+  expectation4 ss =
+  sumcfg (map (@p4 K) ss) (fun s' => sumcfg (map (@p4 K) ss) (fun s =>
+    opamp (ops4 ss) s' s *
+    sumcfg (map (@q4 K) ss) (fun t => opamp (kets4 ss) s t * rcj K (opamp (kets4 ss) s' t)))).
+Proof.
+  intros Hne HA HB HC Hp. rewrite (expectation4_dense K ss Hne HA HB HC). unfold dense4.
+  rewrite (purified_bras ss Hp).
+  apply sumcfg_ext'. intros s'. apply sumcfg_ext'. intros s.
+  rewrite <- sumcfg_scale_l. apply sumcfg_ext'. intros t.
+  rewrite chain4_cj. unfold opamp. ring.
+Qed.
+End PurifiedProofs.
